@@ -178,6 +178,14 @@ impl Monitor for C02 {
         c.bucket(format!("family:{}", case.family))
     }
 
+    fn sidecar(&self, env: &Env) -> Vec<SidecarReport> {
+        if env.tier == Tier::Thorough {
+            vec![crate::miri::run_miri("C02", "diff", 16, 120)]
+        } else {
+            vec![]
+        }
+    }
+
     fn shrink(&self, case: &DiffCase) -> Vec<DiffCase> {
         shrink(case)
     }
